@@ -67,7 +67,8 @@ func (i *Ignore) load(rootGoitPath string) error {
 func (i *Ignore) IsIncluded(path string, index *Index) bool {
 	target := path
 	info, err := os.Stat(path)
-	if os.IsNotExist(err) {
+	if err != nil {
+		// not only a missing path: any path that cannot be examined has no file info
 		if len(index.GetEntriesByDirectory(path)) > 0 {
 			target = fmt.Sprintf("%s/", path)
 		}
